@@ -113,6 +113,17 @@ REQUIRE = {
     "grid.live_op_cw": 2200,
     "grid.live_op_cw_same_value": 1000,
     "grid.live_cell_width_assigned_after_per_cell_widths": 2200,
+    "pilewrap.directed_cases": 630,
+    "pilewrap.sizing_l": 126,
+    "pilewrap.sizing_x": 126,
+    "pilewrap.sizing_lx": 126,
+    "pilewrap.sizing_blx": 126,
+    "pilewrap.sizing_T": 126,
+    "pile.pack_fixed+flow_item_wrapping_at_pile_width": 150,
+    "pile.pack_flow_only_item_wrapping_at_pile_width": 50,
+    "pile.pack_fixed_only_item_measured": 100,
+    "regress.29070bd_all_zero_weights": 27,
+    "regress.4cbc3a6_flow_top_wrapping_at_own_width": 180,
     "grid.directed_core_cases": 800,
     "grid.directed_wrap_window_cases": 140,
     "grid.evals": 500,
@@ -130,7 +141,7 @@ RULE = (
     "random beyond (<=7 columns, sizes to 30, float and zero weights, zero given, box_columns flags, flow/fixed/box spy sizings, maxcol "
     "to 80). Pile: same scheme over <=4 items x {given 1..6, pack spy rows 1..6, weight 1..3} x maxrow 1..24. Padding / Filler / "
     "Overlay: align kinds {left,center,right,relative 0,1,33,50,67,99,100} x size kinds {given, relative, pack, clip} x min sizes x "
-    "margins 0..3 x available 1..24, random beyond. Live histories: random sequences of size / focus_position / contents[i]= / box_columns= on one Columns or box Pile, all clauses re-judged after every operation. Overlay fixed tops: a deterministic core of 3200 width='pack' top widgets of (cols-1, cols, cols+1, cols+5) x (rows-1, rows, rows+1, rows+4) over (4,3) and (7,5), every align x valign kind, margins; a clipped top that cannot be rendered or is not drawn between the margins is a violation. GridFlow live histories: a cell is given its own width, optionally the grid is rendered, then cell_width is assigned (same value or another); the model follows the documented rule 'setting cell_width affects all cells' and is never read back from urwid (2304 directed cases + random ops setw/cw/render/focus). Focus-dependent children: a deterministic core of 2496 Columns + 312 box Pile cases with pack spies whose pack()/rows() answer depends on the focus argument (FIXED and FLOW measuring paths) x every focus position x container focus flag; own size = the spy's answer for the focus flag it is rendered with. GridFlow: directed core first (1..5 cells x cell width 1..5 x h_sep 0..2 x every maxcol from 1 to two past the one-line width, deterministic, not time-limited; a second directed core of non-uniform grids with one or two cells reconfigured through contents[i] = (w, options(width_amount=N)) / ('given', N), each cell judged at its own configured width), then 1..8 cells x cell width x separators x align x maxcol, glyph boxes read "
+    "margins 0..3 x available 1..24, random beyond. Live histories: random sequences of size / focus_position / contents[i]= / box_columns= on one Columns or box Pile, all clauses re-judged after every operation. Overlay fixed tops: a deterministic core of 3200 width='pack' top widgets of (cols-1, cols, cols+1, cols+5) x (rows-1, rows, rows+1, rows+4) over (4,3) and (7,5), every align x valign kind, margins; a clipped top that cannot be rendered or is not drawn between the margins is a violation. GridFlow live histories: a cell is given its own width, optionally the grid is rendered, then cell_width is assigned (same value or another); the model follows the documented rule 'setting cell_width affects all cells' and is never read back from urwid (2304 directed cases + random ops setw/cw/render/focus). Wrapping PACK items: 630 box Piles with weighted items and a PACK item of natural width 3/9/19 at Pile widths 1..20 in every sizing set (FLOW-only, FIXED-only, FIXED+FLOW, BOX+FLOW+FIXED spies with pack(())==(nat,1), rows((w,))==ceil(nat/w), and a real urwid.Text); own rows = rows((maxcol,)) when the widget supports FLOW, else pack(())[1]. Regression core: one directed case per case named in the `fixed: property=C19` lines. Focus-dependent children: a deterministic core of 2496 Columns + 312 box Pile cases with pack spies whose pack()/rows() answer depends on the focus argument (FIXED and FLOW measuring paths) x every focus position x container focus flag; own size = the spy's answer for the focus flag it is rendered with. GridFlow: directed core first (1..5 cells x cell width 1..5 x h_sep 0..2 x every maxcol from 1 to two past the one-line width, deterministic, not time-limited; a second directed core of non-uniform grids with one or two cells reconfigured through contents[i] = (w, options(width_amount=N)) / ('given', N), each cell judged at its own configured width), then 1..8 cells x cell width x separators x align x maxcol, glyph boxes read "
     "off the canvas. A case = (container, options, focus, available size); distinct = distinct (options, focus) tuples for the two "
     "exhaustive cores and distinct full descriptors elsewhere; beyond 250k distinct descriptors per shard further cases are evaluated but not de-duplicated (counter cases_beyond_distinct_cap_not_deduplicated); *.shards_complete counters tell how many shards finished their slice of each enumeration in the time budget; non-trivial = the real code was executed and judged (cases for which "
     "urwid emits a WidgetWarning are counted as skipped_invalid, not as evaluations)"
@@ -162,6 +173,7 @@ GLYPHS = "abcdefghijklmnopqrstuvwxyzABCDEFGHIJKLMNOPQRSTUVWXYZ"
 # --------------------------------------------------------------------------- spies
 
 _urwid = None
+_TextSpy = None
 _Spy = None
 WidgetWarning = None
 
@@ -235,7 +247,8 @@ def U():
         def pack_answer(self, size, focus=False):
             """pure: what this widget answers to pack(size, focus)"""
             if not size:
-                return (self.pw_for(focus), self.rows_for(1, focus))
+                # natural (unwrapped) size; a wrapping spy (area = natural width) is one row high unwrapped
+                return (self.pw_for(focus), 1 if self.area else self.rows_for(1, focus))
             if len(size) == 1:
                 return (max(min(self.pw_for(focus), size[0]), 0), self.rows_for(size[0], focus))
             return tuple(size)
@@ -264,6 +277,52 @@ def U():
                 c, r = size
             return urwid.SolidCanvas(self.glyph, max(c, 0), max(r, 0))
 
+    class TextSpy(urwid.Text):
+        """a REAL urwid.Text (words of four glyphs) that logs like a spy; layout, rows and pack are Text's own"""
+
+        no_cache = ["render", "rows"]
+
+        def __init__(self, glyph, nat):
+            words = (glyph * 4 + " ") * (max(nat, 1) // 5) + glyph * max(1, nat % 5)
+            super().__init__(words.strip())
+            self.glyph = glyph
+            self.pw = self.fpw = len(words.strip())
+            self.ph = self.fph = 1
+            self.area = nat
+            self.rendered, self.packed, self.flags, self.neg, self.seen = [], [], [], [], 0
+
+        reset = Spy.reset
+        _chk = Spy._chk
+
+        def pw_for(self, focus=False):
+            return self.pw
+
+        def rows_for(self, w, focus=False):
+            return urwid.Text.rows(self, (max(w, 1),), focus)
+
+        def pack_answer(self, size, focus=False):
+            return urwid.Text.pack(self, tuple(size), focus)
+
+        def rows(self, size, focus=False):
+            self._chk("rows", size)
+            self.flags.append(("rows", bool(focus)))
+            return super().rows(size, focus)
+
+        def pack(self, size=(), focus=False):
+            self._chk("pack", size)
+            self.flags.append(("pack", bool(focus)))
+            r = super().pack(size, focus)
+            self.packed.append((tuple(size), r))
+            return r
+
+        def render(self, size, focus=False):
+            self._chk("render", size)
+            self.flags.append(("render", bool(focus)))
+            self.rendered.append(tuple(size))
+            return super().render(size, focus)
+
+    global _TextSpy
+    _TextSpy = TextSpy
     _urwid = urwid
     _Spy = Spy
     WidgetWarning = WW
@@ -626,8 +685,14 @@ def build_pile(d):
     specs = []
     for i, it in enumerate(d["items"]):
         kind, amount, sizing = it[0], it[1], it[2]
-        s = spy(GLYPHS[i], sizing, pw=3, ph=amount if kind == "pack" else 1)
-        if kind == "pack" and len(it) > 3 and it[3] is not None:
+        nat = it[4] if kind == "pack" and len(it) > 4 else 0
+        if sizing == "T":
+            U()
+            s = _TextSpy(GLYPHS[i], nat or amount)  # a real Text of that natural width
+        else:
+            # nat: natural width of a wrapping spy: pack(()) == (nat, 1), rows((w,)) == ceil(nat / w)
+            s = spy(GLYPHS[i], sizing, pw=nat or 3, ph=amount if kind == "pack" else 1, area=nat)
+        if kind == "pack" and len(it) > 3 and it[3] is not None and sizing != "T":
             s.fph = it[3]  # rows answered when asked with focus=True
         spies.append(s)
         specs.append((kind, None if kind == "pack" else amount))
@@ -761,7 +826,16 @@ def eval_pile(obs, P, spies, d, focus, maxrow, mode):
     own = []
     for i, (it, s) in enumerate(zip(items, spies)):
         if it[0] == "pack":
-            own.append(s.rows_for(maxcol, bool(pflag and i == focus)))
+            # own rows of a PACK item in a Pile of width maxcol: rows((maxcol,)) when the widget supports FLOW, else pack(())[1]
+            exp = bool(pflag and i == focus)
+            flowable = urwid.FLOW in s.sizing()
+            own.append(s.rows_for(maxcol, exp) if flowable else s.pack_answer((), exp)[1])
+            if flowable and urwid.FIXED in s.sizing() and own[-1] != s.pack_answer((), exp)[1]:
+                obs.c["pile.pack_fixed+flow_item_wrapping_at_pile_width"] += 1
+            elif flowable and own[-1] > 1 and s.area:
+                obs.c["pile.pack_flow_only_item_wrapping_at_pile_width"] += 1
+            elif not flowable:
+                obs.c["pile.pack_fixed_only_item_measured"] += 1
             if s.rows_for(maxcol, True) != s.rows_for(maxcol, False):
                 obs.c["pile.focus_dependent_pack_measured"] += 1
                 obs.c[f"pile.focus_dependent_pack_{'focus' if i == focus else 'nonfocus'}_item_container_focus_{pflag}"] += 1
@@ -1770,6 +1844,42 @@ def focus_dep_sweep(ctx, obs):
                 obs.c["focusdep.pile_cases"] += 1
 
 
+def pile_wrap_sweep(ctx, obs):
+    """deterministic core, not time-limited: box Pile with weighted items plus a PACK item that has to wrap at the Pile width,
+    in every sizing set (FLOW-only, FIXED-only, FIXED+FLOW, BOX+FLOW+FIXED spies with pack(()) == (nat, 1) and
+    rows((w,)) == ceil(nat / w), and a real urwid.Text of that natural width)"""
+    idx = 0
+    for sizing, nat, maxcol, maxrow, shape in itertools.product(("l", "x", "lx", "blx", "T"), (3, 9, 19), (1, 2, 4, 5, 7, 12, 20), (4, 10, 17), (0, 1)):
+        idx += 1
+        if not ctx.mine(idx):
+            continue
+        pk = ["pack", 1, sizing, None, nat]
+        items = [pk, ["weight", 2, "b"], ["weight", 1, "b"]] if shape == 0 else [["given", 2, "b"], ["weight", 1, "b"], pk]
+        mode = "rows" if sizing == "x" or idx % 2 else "render"
+        d = {"k": "pile", "items": items, "focus": idx % 3, "maxcol": maxcol, "maxrow": maxrow, "mode": mode, "f": bool(idx % 4 == 0)}
+        run_desc(ctx, obs, d)
+        obs.c["pilewrap.directed_cases"] += 1
+        obs.c[f"pilewrap.sizing_{sizing}"] += 1
+
+
+def regression_core(ctx, obs):
+    """one directed case for every case named by a `fixed: property=C19` line of KNOWN_FINDINGS.txt"""
+    if not ctx.mine(0):
+        return
+    # 29070bd: Columns([('weight', 0, Text('a'))]).column_widths((5,)) raised ZeroDivisionError
+    for n in (1, 2, 3):
+        for maxcol in (1, 5, 12):
+            for mode in ("widths", "flow", "box"):
+                run_desc(ctx, obs, {"k": "columns", "cols": [["weight", 0, "bl", False]] * n, "div": 0, "minw": 1, "focus": 0, "maxcol": maxcol, "mode": mode, "maxrow": 2})
+                obs.c["regress.29070bd_all_zero_weights"] += 1
+    # 4cbc3a6: Overlay(Text('aaaa bbbb cccc dddd eeee ffff'), SolidFill('.'), 'center', 4, 'bottom', 'pack').render((12, 8)):
+    # a flow top that is 1 row at the overlay width and 6 rows at its own width 4
+    for al, va in itertools.product(("left", "center", "right"), VALIGNS):
+        for (maxcol, maxrow), width in itertools.product(((12, 8), (12, 4), (30, 10)), (4, ["relative", 34])):
+            run_desc(ctx, obs, overlay_desc(al, va, "g" if isinstance(width, int) else "r", width if isinstance(width, int) else width[1], "p", 1, None, None, 0, 0, 0, 0, maxcol, maxrow, 24))
+            obs.c["regress.4cbc3a6_flow_top_wrapping_at_own_width"] += 1
+
+
 def rand_columns(rng):
     n = rng.randint(1, 7)
     big = rng.random() < 0.3
@@ -1915,6 +2025,9 @@ def rand_pile(rng):
             items.append(["pack", rng.randint(1, hi), rng.choice(["l", "lx", "bl"])])
             if rng.random() < 0.3:
                 items[-1].append(rng.randint(1, hi))  # rows when asked with focus=True
+            elif rng.random() < 0.4:
+                # wrapping item of natural width nat in any sizing set (real Text included)
+                items[-1] = ["pack", 1, rng.choice(["l", "lx", "blx", "T", "T"]), None, rng.randint(1, 40)]
         else:
             w = rng.choice([1, 1, 2, 3, 5, 7, 0.5, 1.5, 0.1]) if not zero else rng.choice([0, 0, 1, 2])
             items.append(["weight", w, "b"])
@@ -2290,6 +2403,8 @@ def run(ctx):
     overlay_directed_fixed(ctx, obs)
     entry_sweep(ctx, obs)
     focus_dep_sweep(ctx, obs)
+    pile_wrap_sweep(ctx, obs)
+    regression_core(ctx, obs)
     ctx.extra["directed_cores_seconds_shard0"] = round(ctx.elapsed(), 2)
     ctx.count("directed_cores_centiseconds_all_shards", int(ctx.elapsed() * 100))
     # the deterministic cores are not time-limited; the time budget (and its fractions below) starts after them, so that a
